@@ -148,6 +148,76 @@ func §E() {
 	}
 }
 `, "deleg:field-reassigned"),
+		Raw("deleg-for-post-with-continue-in-nested-loop", `
+func §sub(tag int) ITER[int] GEN[int]{
+	tr.E(tag)
+	YIELD(tag)
+	RETNIL
+}GEN
+func §gen() ITER[int] GEN[int]{
+	for i := 0; i < 2; YFROM(§sub(tr.V(1, -1-i))) {
+		for j := 0; j < 3; j++ {
+			if j == 1 {
+				continue
+			}
+			YIELD(i*10 + j)
+		}
+		for _, w := range []int{7, 8} {
+			if w == 7 {
+				continue
+			}
+			tr.V(2, w)
+		}
+		i++
+	}
+	RETNIL
+}GEN
+`+StdEntry, "deleg:in-for-post", "deleg:continue"),
+		Raw("deleg-loop-with-break-inside-switch-case", `
+func §sub(base int) ITER[int] GEN[int]{
+	tr.E(base)
+	YIELD(base)
+	YIELD(base + 1)
+	RETNIL
+}GEN
+func §gen() ITER[int] GEN[int]{
+	shared := §sub(500)
+	switch tr.N(1, 2) {
+	case 0:
+		YIELD(-1)
+		for i := 0; i < 4; i++ {
+			YFROM(§sub(i * 10))
+			if i == 1 {
+				break
+			}
+		}
+		YIELD(-2)
+		for shared.MoveNext() {
+			YIELD(shared.Current())
+			break
+		}
+	default:
+		for i := 0; i < 3; i++ {
+			if i == 1 {
+				continue
+			}
+			YFROM(§sub(100 + i*10))
+		}
+	}
+	YFROM(shared)
+	YIELD(-3)
+	switch x := any(tr.N(2, 2)).(type) {
+	case int:
+		for k := 0; k < 3; k++ {
+			YIELD(x*100 + k)
+			if k == x {
+				break
+			}
+		}
+	}
+	RETNIL
+}GEN
+`+StdEntry, "deleg:in-switch", "deleg:break"),
 		Raw("deleg-generic-and-method-generators", `
 type §box struct{ xs []int }
 
